@@ -1186,6 +1186,53 @@ def psr_contract():
     )
 
 
+def hint_pattern(repo=None):
+    """The pattern constant `_looks_like_html` searches with, read from the REAL source: the module-level `re.compile(<literal>[,
+    re.IGNORECASE])` whose name the function calls `.search` on -> the pattern string as the executor's model writes it."""
+    m = loader.module(MSG, repo) if repo is not None else loader.module(MSG)
+    fn = m.functions.get("_looks_like_html")
+    if fn is None:
+        raise M.ShapeUnknown("_looks_like_html is gone")
+    names = [n.func.value.id for n in ast.walk(fn) if isinstance(n, ast.Call) and isinstance(n.func, ast.Attribute) and n.func.attr == "search"
+             and isinstance(n.func.value, ast.Name)]
+    if len(set(names)) != 1:
+        raise M.ShapeUnknown("not exactly one compiled pattern searched by _looks_like_html")
+    node = m.assigns.get(names[0])
+    if not (isinstance(node, ast.Call) and ast.unparse(node.func) == "re.compile" and node.args and isinstance(node.args[0], ast.Constant)
+            and isinstance(node.args[0].value, str) and not node.keywords):
+        raise M.ShapeUnknown("hint pattern is not re.compile(<str literal>, ...)")
+    flags = [ast.unparse(a) for a in node.args[1:]]
+    if flags not in ([], ["re.IGNORECASE"], ["re.I"]):
+        raise M.ShapeUnknown(f"hint pattern flags {flags}")
+    return names[0], ("(?i)" if flags else "") + node.args[0].value, node.args[0].value, bool(flags)
+
+
+def llh_spec(t):
+    """`_looks_like_html(text)` as specified (msg bodies: which bodies are HTML): a non-empty text is HTML when, left-stripped and
+    lower-cased, it opens with a doctype or mentions <html / <body, or when the module's tag-hint pattern finds a tag in it (what that
+    pattern has to match is the ground obligation `_HTML_HINT_RE/module-invariant`)."""
+    P = z3.StringVal(hint_pattern()[1])
+    low = M.LOWER(M.LSTRIP(t))
+    return z3.And(z3.Length(t) > 0,
+                  z3.Or(z3.PrefixOf(z3.StringVal("<!doctype"), low), z3.Contains(low, z3.StringVal("<html")), z3.Contains(low, z3.StringVal("<body")),
+                        z3.Not(M.RS_NONE(P, t))))
+
+
+def llh_contract():
+    """(round 7) _looks_like_html: VERIFIED on the real body; it used to be a summarised helper (an unspecified deterministic bool).
+    Call sites (read_msg_format_mail) get the specified value, which is a function of the argument, so the former view is implied."""
+    def ret(c):
+        return VBool(llh_spec(c.args["text"].t))
+
+    return FnContract(
+        target=f"{MSG}::_looks_like_html",
+        params=[("text", p_str())],
+        returns=ret,
+        raises=[],
+        note="False for ''; doctype / <html / <body on the left-stripped lower-cased text, else the module's tag-hint pattern (re.search assumed total)",
+    )
+
+
 def helper_tag(st, v):
     """("helper", name, argument terms, sorts) of a list produced by a summarised private helper of the msg module"""
     tag = M.seq_tag(st, v) if v is not None else None
@@ -1299,6 +1346,11 @@ def contracts(reg):
     M.install(reg)
     out = []
     out.append(psr_contract())
+    try:
+        hint_pattern()
+        out.append(llh_contract())
+    except Exception:  # noqa  (shape of the hint pattern not recognised: the helper stays summarised, the ground obligation reports it)
+        pass
     out.append(read_msg_contract())
     out.extend(router_contracts(reg))
     out.append(eml_contract())
@@ -1447,6 +1499,31 @@ def mime_table_obligations(repo, tier):
     return {"obligations": obls, "functions": []}
 
 
+# What the tag-hint pattern of `_looks_like_html` has to do (from the property: "the plain and HTML bodies"; an Outlook HTML body is a
+# fragment of tags that nearly always carry attributes): an opening tag of the listed block / inline elements counts whether it is
+# closed at once (`<p>`) or followed by white space and attributes (`<p class="MsoNormal">`), in any case; text that merely contains
+# `<`, other elements, and the two characters backslash + `s` after a tag name do not.
+HINT_MUST = ["<p>x</p>", "<p class=\"MsoNormal\">x</p>", "<div style=\"c\">x</div>", "<span\tid=x>y</span>", "<table border=\"1\"><tr><td>1</td></tr></table>",
+             "<td\nclass=a>", "<P CLASS=\"A\">x</P>", "<BR>", "<br />", "text before <div class=\"WordSection1\">x</div>"]
+HINT_MUST_NOT = ["a < b and c > d", "<pre>x</pre>", "<b>bold</b>", "<tdx>", "<paragraph>", "<p\\s", "", "1 <2 p>"]
+
+
+def hint_pattern_obligations(repo, tier):
+    """`_HTML_HINT_RE` (the literal of the real source, compiled here with the real `re`) on the two tables above: the contract of
+    `_looks_like_html` is stated over "the module's hint pattern"; what that pattern matches is decided here."""
+    import re
+    obls = []
+    name, _model, lit, icase = hint_pattern(repo)
+    rx = re.compile(lit, re.IGNORECASE if icase else 0)
+    G = lambda label, ok, why="": obls.append(ground_obligation(f"C16/msg_email_extractor.py::_HTML_HINT_RE/module-invariant#{label}", ok, why,
+                                                                 MSG, kind="module-invariant", backend="ground"))
+    bad = [x for x in HINT_MUST if rx.search(x) is None]
+    G("opening-tags-with-or-without-attributes-are-html", not bad, f"{name} does not find a tag in {bad!r}")
+    bad = [x for x in HINT_MUST_NOT if rx.search(x) is not None]
+    G("text-without-a-listed-opening-tag-is-not-html", not bad, f"{name} finds a tag in {bad!r}")
+    return {"obligations": obls, "functions": []}
+
+
 def _guarded_extra(fn, oid):
     """an EXTRA never crashes the check: an exception inside pack code on a changed tree is an unrecognised shape -> `unknown`"""
     def run(repo, tier):
@@ -1460,7 +1537,8 @@ def _guarded_extra(fn, oid):
 
 EXTRA = [_guarded_extra(pattern_obligations, "C16/mbox_email_extractor.py::MBOX_FROM_PATTERN/module-invariant#pattern-is-a-compiled-bytes-literal"),
          _guarded_extra(frame_obligations, "C16/data_types.py::FileMetadataInterface.populate_from_path/frame#assigns-only-file-metadata-fields"),
-         _guarded_extra(mime_table_obligations, "C16/mime_types.py::MIME_TYPE_MAPPING/module-invariant#keys-are-type/subtype-names")]
+         _guarded_extra(mime_table_obligations, "C16/mime_types.py::MIME_TYPE_MAPPING/module-invariant#keys-are-type/subtype-names"),
+         _guarded_extra(hint_pattern_obligations, "C16/msg_email_extractor.py::_HTML_HINT_RE/module-invariant#opening-tags-with-or-without-attributes-are-html")]
 REPLAY_UNKNOWN = True      # an obligation the solver leaves unknown is searched natively (replay/C16.py) before it is reported undecided
 
 
